@@ -619,9 +619,12 @@ fn c13(tier: Tier) -> i32 {
         (vec!["fr", "de"], "en"),
         // names that are valid but not in canonical BCP-47 spelling: the string form is the configured name
         (vec!["en", "pt-br", "zh-hant-tw", "sr_Latn"], "pt-br"),
+        // one language written in scripts of opposite direction
+        (vec!["en", "pa", "pa-Arab", "uz-Arab", "uz"], "en"),
     ];
     if tier == Tier::Thorough {
         sets.push((vec!["EN", "en-gb", "Fr", "AR"], "Fr"));
+        sets.push((vec!["ks", "ks-Deva", "az-Arab", "az", "sd-Deva", "sd", "he"], "he"));
         sets.push((vec!["ur", "ps", "yi", "dv", "en", "az-Arab"], "en"));
         sets.push((vec!["pt-BR", "pt-PT", "pt", "es-419", "es"], "pt"));
     }
